@@ -488,6 +488,74 @@ def gen_hist(ctx):
     return H
 
 
+def gen_client2(ctx, hist):
+    """the other /api/pull endpoint (registry.Local.handlePull in front of the legacy handler under OLLAMA_EXPERIMENT=client2,
+    ollama.Registry.Pull inside a back-off loop that retries retryable failures without bound): the same pull histories
+    (those made of plain pull steps), streaming and stream=false, plus k consecutive 5xx / resets with and without recovery.
+    Monitor only: the model of that client is C08/C09's."""
+    rng = ctx.rng
+    q = ctx.quick()
+    out = []
+
+    def conv(c, stream):
+        steps = []
+        for st in c["steps"]:
+            if st["t"] != "pull" or st.get("cancel") or st.get("rotate"):
+                return None
+            st = json.loads(json.dumps(st))
+            # this client asks for whole blobs (no Range header): the CDN key has no last byte
+            st["script"] = {(":".join(k.split(":")[:2] + ["none"]) if k.startswith("cdn:") else k): v for k, v in st.get("script", {}).items()}
+            st["timeout_ms"] = 6000
+            if stream is False:
+                st["stream"] = False
+            steps.append(st)
+        return dict(c, steps=steps, client2=True, klass="client2-" + c["klass"], cost=c.get("cost", 4) + 6, timeout=200)
+    skip = ("layout", "head-cl-larger", "auth-", "resume-", "corpus-oversize")
+    pool = [c for c in hist if c["op"] == "hist" and not c.get("auth") and not c.get("nokey") and not c.get("big") and not any(c["klass"].startswith(p) for p in skip)]
+    seen = set()
+    for c in pool:
+        if q and c["klass"] in seen:
+            continue
+        seen.add(c["klass"])
+        cc = conv(c, False if rng.random() < 0.35 else None)
+        if cc:
+            out.append(cc)
+    # deterministic part, in every run: k consecutive retryable failures with k in {4,5,6,8} (the back-off of the handler is
+    # n^2 * 10 ms * (0.5..1.5): eight iterations take at most about 3 s), streaming, with a client deadline long enough for
+    # a handler that gives up by itself to say so; the terminal status line of the stream is the verdict
+    A0, A1 = b"client2 layer zero", b"client2 layer one, new in v2"
+    for k in (4, 5, 6, 8):
+        for where in ("manifest", "get:1"):
+            for recover in (True, False):
+                n = k if recover else 80
+                upd = pull_step("ns/m:t", [{"blob": 0}, {"blob": 1}], None, {where: [{"status": 503, "raw": hx(b"unavailable")} for _ in range(n)]})
+                upd["timeout_ms"] = 9000 if recover else 5500
+                steps = [pull_step("ns/m:t", [{"blob": 0}], None), upd,
+                         {"t": "pull", "name": "ns/m:t", "manifest": {"layers": [{"blob": 0}, {"blob": 1}]}, "script": {}, "clean": True, "timeout_ms": 9000}]
+                out.append({"op": "hist", "klass": "client2-corpus-%d-consecutive-%s-%s" % (k, where.split(":")[0], "recovers-late" if recover else "never-recovers"), "client2": True,
+                            "blobs": [hx(A0), hx(A1)], "steps": steps, "cost": 40, "timeout": 200})
+    # k consecutive retryable failures within one request, then recovery (the handler must end in success with the model
+    # stored) or not (the client gives up: failure, the old model still resolves)
+    b = [rnd_blob(rng) for _ in range(3)]
+    v1 = pull_step("ns/m:t", [{"blob": 0}], None)
+    for k in (range(1, 9) if not q else [1, 2, 3, 5, 8]):
+        where = rng.choice(["manifest", "get:1", "cdn:1:none"])
+        fault = rng.choice([{"status": 500, "raw": hx(b"oops")}, {"status": 503}, {"status": 502, "raw": hx(b"<html>bad gateway</html>")}]) if where != "cdn:1:none" or rng.random() < 0.5 else {"cut": 0, "end": "reset", "cl": len(b[1])}
+        for recover in (True, False):
+            for stream in (None, False):
+                if q and rng.random() < 0.5:
+                    continue
+                n = k if recover else 60
+                upd = pull_step("ns/m:t", [{"blob": 0}, {"blob": 1}], None, {where: [dict(fault) for _ in range(n)]})
+                upd["timeout_ms"] = 9000 if recover else 2500
+                if stream is False:
+                    upd["stream"] = False
+                steps = [json.loads(json.dumps(v1)), upd, {"t": "pull", "name": "ns/m:t", "manifest": {"layers": [{"blob": 0}, {"blob": 1}]}, "script": {}, "clean": True, "timeout_ms": 9000}]
+                out.append({"op": "hist", "klass": "client2-%d-consecutive-%s-%s" % (k, where.split(":")[0], "recovers" if recover else "never-recovers"), "client2": True,
+                            "blobs": [hx(x) for x in b], "steps": steps, "cost": 14, "timeout": 200})
+    return out
+
+
 def gen_layout(ctx):
     """Prepare's part arithmetic for real sizes: HEAD announces the size, the direct URL then fails at once, the part
     records stay behind.  No byte is transferred; the -partial file is sparse."""
@@ -815,7 +883,9 @@ def render_hist(c, o):
         tab = cq_list(["(%s, %s)" % (cq_bytes(b), cq_N(i + 1)) for i, b in enumerate(blobs)], "(bytes * digest)")
     pre = EMPTY_SNAP
     for si, (sc, so) in enumerate(zip(c["steps"], o["steps"])):
-        if sc["t"] == "prune":
+        if c.get("client2") and sc["t"] != "pull":
+            out.append((si, None, "client2 endpoint: monitor only"))
+        elif sc["t"] == "prune":
             try:
                 out.append((si, "chk_prune %s %s" % (cq_store(ids, pre), cq_store(ids, so["store"])), None))
             except Unrenderable as ex:
@@ -851,8 +921,8 @@ def render_hist(c, o):
                     parts = [{"Offset": a, "Size": z - a + 1, "Completed": 0} for z, a in sorted(firsts.items())]
                     out.append((si, "chk_layout %s %s" % (cq_Z(total), cq_list([cq_part(p) for p in parts], "part")), None))
                 out.append((si, None, "big blobs: monitor + layout only"))
-            elif c.get("nomodel"):
-                out.append((si, None, "monitor-only class"))
+            elif c.get("nomodel") or c.get("client2"):
+                out.append((si, None, "client2 endpoint: monitor only" if c.get("client2") else "monitor-only class"))
             else:
                 try:
                     out.append((si, render_pull(ids, o["digests"], tab, pre, sc, so, o["reg"], haskey=not c.get("nokey")), None))
@@ -882,6 +952,9 @@ def check_manifest_layers(store, m):
     for l in layers:
         d = l.get("digest", "")
         e = store["blobs"].get(blob_file(d)) if isinstance(d, str) else None
+        if e is None and isinstance(d, str) and DIGEST_RE.match(d):
+            # the client2 cache names blobs by the parsed digest (lower-case hex)
+            e = store["blobs"].get("sha256-" + d[7:].lower())
         if e is None:
             bad.append(("missing", l))
         elif e.get("sha256", "").lower() != d.split(":")[-1].split("-")[-1].lower():
@@ -1088,7 +1161,11 @@ def run(ctx, only=None):
     binp = ctx.go_build("c03")
     if not binp:
         return
-    cases = only if only is not None else (gen_pure(ctx) + gen_hist(ctx) + gen_layout(ctx) + ([] if ctx.quick() else gen_big(ctx)))
+    if only is None:
+        hist = gen_hist(ctx)
+        cases = gen_client2(ctx, hist) + gen_pure(ctx) + hist + gen_layout(ctx) + ([] if ctx.quick() else gen_big(ctx))
+    else:
+        cases = only
     env = vlib.goenv()
     env["C03_JOBS"] = str(max(8, min(48, (os.cpu_count() or 8) * 2)))
     obs, err = ctx.run_jsonl(binp, [{k: v for k, v in c.items()} for c in cases], timeout=1500, env=env)
